@@ -1,4 +1,5 @@
 mod c01b;
+mod c01c;
 mod c02c;
 mod c05b;
 mod c06;
@@ -19,6 +20,7 @@ use vcore::SubCheck;
 fn main() {
     let mut checks: Vec<Box<dyn SubCheck>> = vec![];
     checks.extend(c01b::checks());
+    checks.extend(c01c::checks());
     checks.extend(c02c::checks());
     checks.extend(c05b::checks());
     checks.extend(c06::checks());
